@@ -136,6 +136,10 @@ class SymEnv(Env):
             if isinstance(t, tuple) and t[0] == "bytes":
                 out[k] = [model.eval(x, model_completion=True).as_long() for x in t[1]]
                 continue
+            if isinstance(t, tuple) and t[0] == "arr":
+                n = model.eval(t[2], model_completion=True).as_long()
+                out[k] = [model.eval(z3.Select(t[1], i), model_completion=True).as_long() for i in range(min(n, 70000))]
+                continue
             if z3.is_seq(t):
                 n = model.eval(z3.Length(t), model_completion=True).as_long()
                 out[k] = [model.eval(t[i], model_completion=True).as_long() for i in range(min(n, 100000))]
